@@ -213,6 +213,32 @@ func c16Run(tp *core.Tape, e *core.Env) {
 			e.Violate("depends-on-history", "past="+strings.Join(past, "+"), "a manager that went through %v computes hash %q for content a fresh manager hashes as %q", past, h, hA)
 		}
 	}
+	// where the text came from is not configuration content: the coordinator reads a file
+	// (--config.file, in whatever directory it is mounted), a push-mode sidecar receives the same
+	// text over its API; a manager that read a file earlier may receive text later
+	if tp.Bool("loaded_from_file", 1, 2) {
+		sub := filepath.Join(dir, core.Pick(tp, "config_dir", "etc", "mnt/a", "mnt/b/c"))
+		_ = os.MkdirAll(sub, 0o755)
+		f := filepath.Join(sub, "prometheus.yml")
+		_ = os.WriteFile(f, []byte(textA), 0o644)
+		m := prom.NewConfigManager()
+		if err := m.ReloadFromFile(f); err != nil {
+			e.Undecided("a manager reading the configuration from a file rejects it: %v", err)
+			return
+		}
+		e.Probe("loaded_from_file")
+		if h := m.ConfigInfo().ConfigHash; h != hA {
+			e.Violate("depends-on-source", "source=file", "the text read from a file hashes to %q, the same text received as such to %q", h, hA)
+		}
+		if tp.Bool("then_received_raw", 1, 2) {
+			_ = m.ReloadFromRaw([]byte("global:\n  scrape_interval: 33s\nscrape_configs:\n- job_name: earlier\n  static_configs:\n  - targets: [\"a:1\"]\n"))
+			if err := m.ReloadFromRaw([]byte(textA)); err == nil {
+				if h := m.ConfigInfo().ConfigHash; h != hA {
+					e.Violate("depends-on-source", "source=raw-after-file", "a manager that read a file earlier hashes the received text to %q, a fresh one to %q", h, hA)
+				}
+			}
+		}
+	}
 	// a real sidecar reports it through its API
 	if tp.Bool("sidecar_reports", 1, 3) {
 		opt := sidecarsim.Options{Dir: dir}
